@@ -38,7 +38,12 @@ type HarnessFn func(arg json.RawMessage, cfg vrt.Config) (vrt.Result, Outcome)
 
 var harnesses = map[string]HarnessFn{}
 
+// ExploreWorkers selects the worker executable/environment (C14 switches to the -race build).
+var ExploreWorkers par.Options
+
 func RegisterHarness(name string, fn HarnessFn) { harnesses[name] = fn }
+
+type RunFnT = func(prefix []int) vrt.Result
 
 type exploreArg struct {
 	Harness    string          `json:"harness"`
@@ -83,7 +88,7 @@ func runExplore(raw json.RawMessage) (interface{}, error) {
 	if !a.NoCache && !a.Single {
 		visited = vrt.NewVisited()
 	}
-	run := func(prefix []int) vrt.Result {
+	var run RunFnT = func(prefix []int) vrt.Result {
 		var r vrt.Result
 		r, out = h(a.Arg, vrt.Config{Prefix: prefix, Points: a.Points, DaemonEager: a.DaemonLast, Visited: visited})
 		return r
@@ -103,6 +108,24 @@ func runExplore(raw json.RawMessage) (interface{}, error) {
 		}
 		return true
 	}
+	if raceLogPath != "" {
+		// -race build (C14): after every execution look for new race reports
+		inner := run
+		run = func(prefix []int) vrt.Result {
+			r := inner(prefix)
+			for _, rep := range newRaceReports() {
+				sig, ours := raceSignature(rep)
+				if !ours || seenSig[sig] {
+					continue
+				}
+				seenSig[sig] = true
+				res.Viols = append(res.Viols, &report.Violation{Property: "C14", Sig: sig, Detail: rep,
+					Replay: map[string]interface{}{"job": "explore", "race_build": true, "arg": exploreArg{Harness: a.Harness, Arg: a.Arg,
+						Prefix: explore.Choices(r.Points), Points: a.Points, DaemonLast: a.DaemonLast, Single: true}}})
+			}
+			return r
+		}
+	}
 	if a.Single {
 		r := run(a.Prefix)
 		visit(a.Prefix, &r)
@@ -119,7 +142,7 @@ func runExplore(raw json.RawMessage) (interface{}, error) {
 	res.Execs, res.Points, res.MaxPts = st.Executions, st.Points, st.MaxPoints
 	res.Pruned = st.Pruned
 	if visited != nil {
-		res.States = int64(len(visited.M))
+		res.States = int64(visited.Len())
 	}
 	res.Capped = res.Capped || st.Capped
 	if err != nil {
@@ -160,6 +183,14 @@ func ExploreAllOpt(r *report.Report, name string, arg interface{}, bound, points
 	rootArg.Single = true
 	var roots [2]exploreRes
 	for i := 0; i < 2; i++ {
+		if ExploreWorkers.Exe != "" {
+			rs := par.Map("explore", []interface{}{rootArg}, ExploreWorkers, nil)
+			if rs[0].Crashed || rs[0].Err != "" {
+				fatal("harness %s: root execution failed in worker: %s %s", name, rs[0].Err, tail(rs[0].Stderr, 3000))
+			}
+			json.Unmarshal(rs[0].Out, &roots[i])
+			continue
+		}
 		v, err := runExplore(mustJSON(rootArg))
 		if err != nil {
 			fatal("harness %s: %v", name, err)
@@ -194,7 +225,7 @@ func ExploreAllOpt(r *report.Report, name string, arg interface{}, bound, points
 		j.Prefix = k
 		jobs = append(jobs, j)
 	}
-	par.Map("explore", jobs, par.Options{}, func(i int, res *par.Result) {
+	par.Map("explore", jobs, ExploreWorkers, func(i int, res *par.Result) {
 		if res.Crashed || res.Err != "" {
 			fatal("harness %s: worker failed on prefix %v: %s %s", name, kids[i], res.Err, tail(res.Stderr, 2000))
 		}
@@ -286,3 +317,83 @@ func panicSite(stack string) string {
 }
 
 func ncpu() int { return runtime.NumCPU() }
+
+// ---- race-report collection (only active in the -race build, see C14) ----
+
+var raceLogPath = func() string {
+	for _, kv := range strings.Fields(os.Getenv("GORACE")) {
+		if strings.HasPrefix(kv, "log_path=") && vrt.RaceBuild {
+			return fmt.Sprintf("%s.%d", kv[len("log_path="):], os.Getpid())
+		}
+	}
+	return ""
+}()
+
+var raceLogOff int64
+
+func newRaceReports() []string {
+	st, err := os.Stat(raceLogPath)
+	if err != nil || st.Size() <= raceLogOff {
+		return nil
+	}
+	f, err := os.Open(raceLogPath)
+	if err != nil {
+		return nil
+	}
+	defer f.Close()
+	buf := make([]byte, st.Size()-raceLogOff)
+	f.ReadAt(buf, raceLogOff)
+	raceLogOff = st.Size()
+	var out []string
+	for _, blk := range strings.Split(string(buf), "==================") {
+		if strings.Contains(blk, "DATA RACE") {
+			out = append(out, strings.TrimSpace(blk))
+		}
+	}
+	return out
+}
+
+// raceSignature: the innermost frames of the two conflicting accesses; ours
+// only if both lie in go-nfsd / go-journal code (not the harness, not vrt).
+func raceSignature(rep string) (string, bool) {
+	var tops []string
+	lines := strings.Split(rep, "\n")
+	for i, l := range lines {
+		t := strings.TrimSpace(l)
+		isAccess := (strings.HasPrefix(t, "Write at") || strings.HasPrefix(t, "Read at") || strings.HasPrefix(t, "Previous write at") || strings.HasPrefix(t, "Previous read at") ||
+			strings.HasPrefix(t, "Atomic") || strings.HasPrefix(t, "Previous atomic")) && strings.Contains(t, "by ")
+		if !isAccess {
+			continue
+		}
+		top := "?"
+		for j := i + 1; j < len(lines); j++ {
+			f := strings.TrimSpace(lines[j])
+			if f == "" {
+				break
+			}
+			if strings.HasPrefix(f, "/") || strings.HasPrefix(f, "runtime.") {
+				continue
+			}
+			if k := strings.LastIndex(f, "("); k > 0 {
+				f = f[:k]
+			}
+			top = f
+			break
+		}
+		tops = append(tops, top)
+	}
+	if len(tops) < 2 {
+		return "race|unparsed", false
+	}
+	ours := true
+	for _, t := range tops[:2] {
+		if !strings.HasPrefix(t, "github.com/mit-pdos/") || strings.Contains(t, "/vrt") {
+			ours = false
+		}
+	}
+	a, b := strings.TrimPrefix(tops[0], "github.com/mit-pdos/"), strings.TrimPrefix(tops[1], "github.com/mit-pdos/")
+	if a > b {
+		a, b = b, a
+	}
+	return "race|" + a + "|" + b, ours
+}
